@@ -391,12 +391,21 @@ inline void Sweep::attributes_captures_units()
    for (int m = 0; m < 3; ++m) {
       auto* d = &captures.default_capture(Binding_mode(m)); add_other("default_capture", d, [d, m](Ck& c) { c.eq("mode", (long long)d->mode(), m); });
       auto* i = &captures.implicit_object_capture(Binding_mode(m)); add_other("implicit_object_capture", i, [i, m](Ck& c) { c.eq("how", (long long)i->how(), m); });
+      default_captures.push_back(d); object_captures.push_back(i);
+   }
+   // a captured declaration that no identifier names (an operator, a conversion function, a constructor): the capture has its
+   // declaration and its mode, and no name to report
+   for (auto nm : { static_cast<const Name*>(&lex.get_operator(u8"+")), static_cast<const Name*>(&lex.get_conversion(static_cast<const Lexicon&>(lex).bool_type())), static_cast<const Name*>(&lex.get_ctor_name(*P.a_class)) }) {
+      auto* v = unit.global_scope()->make_var(*nm, P.T()); auto bm = Binding_mode(rng.below(3)); auto* n = &captures.enclosing_local_capture(*v, bm);
+      local_captures.push_back(n);
+      add_other("enclosing_local_capture(declaration not named by an identifier)", n, [n, vp = v, bm](Ck& c) { c.same("declaration", &n->declaration(), static_cast<const Decl*>(vp)); c.eq("mode", (long long)n->mode(), (long long)bm); c.absent("name", [&] { (void)&n->name(); }); });
    }
    {  auto& v = *rng.pick(P.vars); auto bm = Binding_mode(rng.below(3)); auto* n = &captures.enclosing_local_capture(v, bm);
       add_other("enclosing_local_capture", n, [n, vp = &v, bm](Ck& c) { c.same("declaration", &n->declaration(), static_cast<const Decl*>(vp)); c.eq("mode", (long long)n->mode(), (long long)bm); c.same("name", &n->name(), static_cast<const Identifier*>(util::view<Identifier>(vp->name()))); });
       auto& id = *rng.pick(P.idents); auto& e = P.X(); auto* b = &captures.binding_capture(id, e, bm);
       add_other("binding_capture", b, [b, ip = &id, ep = &e, bm](Ck& c) { c.same("name", &b->name(), ip); c.same("initializer", &b->initializer(), ep); c.eq("mode", (long long)b->mode(), (long long)bm); });
-      auto* x = &captures.expansion_capture(*b); add_other("expansion_capture", x, [x, b](Ck& c) { c.same("what", &x->what(), static_cast<const Capture_specification::Named*>(b)); }); }
+      local_captures.push_back(n); binding_captures.push_back(b);
+      auto* x = &captures.expansion_capture(*b); expansion_captures.push_back(x); add_other("expansion_capture", x, [x, b](Ck& c) { c.same("what", &x->what(), static_cast<const Capture_specification::Named*>(b)); }); }
    // comment / annotation (public constructors; no linkable factory)
    {  auto& s = *rng.pick(P.strings); comments.emplace_back(s); auto* n = &comments.back(); add_node("impl::Comment", n, Category_code::Comment, [n, sp = &s](Ck& c) { c.same("text", &n->text(), sp); }); }
    {  auto& s = *rng.pick(P.strings); auto& lit = *lex.make_literal(P.T(), u8"42"); annotations.emplace_back(s, lit); auto* n = &annotations.back();
